@@ -173,6 +173,20 @@ class C02(SolverSuite):
             # a listener of the user fails once and the caller carries on: the completed iterations are all there, so the
             # decision rule keeps holding for every later trial (unlike after an objective failure, which loses an interval)
             G.add_listener_fault(rng, plan)
+        elif rng.random() < 0.05 and "S1" not in actors and not spec["params"].get("refineSolution"):
+            # the objective fails once inside the plan's LAST operation, a Solve: the search ends there (the interval being
+            # split is lost), so every trial that Solve still reports must have been placed by the rule - i.e. there are none
+            # after the failure
+            its = [o for o in plan["ops"] if o["op"] == "iterate"]
+            cut = next((i for i, o in enumerate(plan["ops"]) if o["op"] == "solve"), len(plan["ops"]))
+            its = [o for o in plan["ops"][:cut] if o["op"] == "iterate"]          # (only the batches before the first Solve)
+            plan["ops"] = [{"a": "S0", "op": "create"}] + its + [{"a": "S0", "op": "solve"}]
+            n_pre = sum(o.get("k", 0) for o in plan["ops"] if o["op"] == "iterate")
+            spec["params"]["itersLimit"] = n_pre + rng.randint(10, 60)
+            spec["params"]["eps"] = G.EPS_MIN[spec["objective"]["N"]]
+            plan["faults"] = [{"a": "S0", "at_eval": n_pre + rng.randint(2, 8), "exc": rng.choice(["ValueError", "KeyboardInterrupt", "SimFault"]),
+                               "when": rng.choice(["before", "after"]), "persistent": False}]
+            plan["nested"] = []
         return plan
 
     def cases(self, rng, tier, run_seed, idx=0):
@@ -452,6 +466,14 @@ class C05(SolverSuite):
             ops.append({"a": "S0", "op": rng.choice(["refine", "solve"]), "n": rng.choice([-1, 5, 50])})
             ops.append({"a": "S0", "op": "results"})
         ops = G.sprinkle_evq(rng, ops, "S0", spec)
+        if L <= 40 and rng.random() < 0.06:
+            # painting / console listeners attached (their objective probes are not trials; they must leave the result alone)
+            from .suites_multi import gen_listeners
+            spec["listeners"] = [ls for ls in gen_listeners(rng, spec["objective"]["N"], L)
+                                 if ls.get("mode") not in ("interpolation", "approximation") and ls.get("calc") != "interpolation"]
+            spec["params"]["itersLimit"] = min(spec["params"]["itersLimit"], L)
+            ops = [o for o in ops if o["op"] != "refine"] + [{"a": "S0", "op": "results"}]
+            return G.base_plan(self.prop, run_seed, {"S0": spec}, ops, clock=G.gen_clock(rng))
         if rng.random() < 0.1 and spec.get("lower") is not None:
             # company: a second solver on the SAME box with another objective (a multiple of S0's, so that the two searches visit
             # the same points), both refining
@@ -502,6 +524,13 @@ class C06(SolverSuite):
         spec = G.gen_actor(rng, max_iters=L, refine=(rng.random() < 0.15), shipped_prob=0.1)
         if rng.random() < 0.5:
             spec["params"]["itersLimit"] = L
+        if L <= 40 and rng.random() < 0.06:
+            # painting / console listeners attached: they read the record and must leave it alone
+            from .suites_multi import gen_listeners
+            spec["listeners"] = [ls for ls in gen_listeners(rng, spec["objective"]["N"], L)
+                                 if ls.get("mode") not in ("interpolation", "approximation") and ls.get("calc") != "interpolation"]
+            spec["params"]["itersLimit"] = min(spec["params"]["itersLimit"], L)
+            spec["params"]["refineSolution"] = False
         pre = rng.choice([0, rng.randint(0, L), rng.randint(0, L)])
         ops = G.gen_single_ops(rng, "S0", pre, with_solve=rng.random() < 0.8, results_prob=0.1,
                                after_solve_iters=rng.choice([0, rng.randint(1, 8)]), refine_ops=rng.random() < 0.15)
